@@ -23,7 +23,7 @@ RULE = (
     "histories; invariants on every state, integrate-vs-tables reference on every distinct state (depth<=1 quick for all inits, "
     "depth 2 for the first; all for thorough)"
 )
-REQUIRED_COVER = ["confined_delete_with_items_outside_view", "synaptic_state_of_interleaved_edge_recorded", "delete_with_shared_column_owner_remaining", "delete_undoes_insert", "set_ncomp_with_group", "network_connect",
+REQUIRED_COVER = ["channel_delete_confinement_checked", "heterogeneous_network", "confined_delete_with_items_outside_view", "synaptic_state_of_interleaved_edge_recorded", "delete_with_shared_column_owner_remaining", "delete_undoes_insert", "set_ncomp_with_group", "network_connect",
                   "stale_reference_observed", "simulated_with_clamp", "simulated_with_synapse"]
 ASSUMPTIONS = [
     "weaker readings (DESIGN C19): a recording/clamp/trainable naming a state of a channel deleted *afterwards* refers to an existing row; "
@@ -79,7 +79,26 @@ def _net2():
     return net
 
 
-INITS = {"cell_nak": _cell_nak, "cell_hh": _cell_hh, "net2": _net2}
+def _net_het():
+    """Cells that carry different channel sets *before* they are assembled into a network (the flag columns of the network's
+    node table are then produced by the concatenation, not by insert) and have different shapes."""
+    J = build.jx()
+    from jaxley.channels import HH, K, Leak, Na
+    from jaxley.connect import connect
+    from jaxley.synapses import IonotropicSynapse
+
+    a = build.cell_of([-1, 0], [2, 1])
+    a.branch(0).insert(HH())
+    a.insert(Leak())
+    b = build.cell_of([-1, 0, 0], [1, 2, 1])
+    b.branch([0, 1]).insert(Na())
+    b.branch([1, 2]).insert(K())
+    net = J.Network([a, b])
+    connect(net.cell(0).branch(0).comp(1), net.cell(1).branch(1).comp(0), IonotropicSynapse())
+    return net
+
+
+INITS = {"cell_nak": _cell_nak, "cell_hh": _cell_hh, "net2": _net2, "net_het": _net_het}
 
 
 def _j():
@@ -176,6 +195,23 @@ OPS["n_train_rad_c0"] = lambda m: m.cell(0).make_trainable("radius", verbose=Fal
 OPS["n_deltrain_all"] = lambda m: m.delete_trainables()
 OPS["n_init_states"] = lambda m: m.init_states()
 
+# --- heterogeneous network ops (channel sets differ between the cells)
+OPS["h_del_HH_c0b0c0"] = lambda m: m.cell(0).branch(0).comp(0).delete_channel(_ch("HH"))
+OPS["h_del_HH_c0"] = lambda m: m.cell(0).delete_channel(_ch("HH"))
+OPS["h_del_Leak_c0b1"] = lambda m: m.cell(0).branch(1).delete_channel(_ch("Leak"))
+OPS["h_del_Na_c1b0"] = lambda m: m.cell(1).branch(0).delete_channel(_ch("Na"))
+OPS["h_del_K_c1"] = lambda m: m.cell(1).delete_channel(_ch("K"))
+OPS["h_del_Leak_c1"] = lambda m: m.cell(1).delete_channel(_ch("Leak"))
+OPS["h_ins_Leak_c1"] = lambda m: m.cell(1).insert(_ch("Leak"))
+OPS["h_ins_HH_c1b2"] = lambda m: m.cell(1).branch(2).insert(_ch("HH"))
+OPS["h_ins_K_c0b1"] = lambda m: m.cell(0).branch(1).insert(_ch("K"))
+OPS["h_set_gNa_c1b1"] = lambda m: m.cell(1).branch(1).set("Na_gNa", 0.07)
+OPS["h_rec_HHm_c0b0c1"] = lambda m: m.cell(0).branch(0).comp(1).record("HH_m", verbose=False)
+OPS["h_clamp_Kn_c1b2"] = lambda m: m.cell(1).branch(2).clamp("K_n", 0.4 * _j().ones(T), verbose=False)
+OPS["h_train_gLeak_c0"] = lambda m: m.cell(0).make_trainable("Leak_gLeak", verbose=False)
+_HET = [k for k in OPS if k.startswith("h_")] + ["n_set_rad_c1b0", "n_group_c0", "n_rec_v_c1", "n_delrec_all", "n_stim_c0", "n_clamp_v_c1b1",
+                                                 "n_delclamp_all", "n_deltrain_all", "n_init_states", "n_connect_I"]
+
 _CELL_COMMON = ["ins_Leak_b0", "ins_Km_all", "ins_CaL_b2", "ins_CaT_b2c0", "set_rad_b2c1", "set_v_b0", "ncomp_b1_2", "ncomp_b2_1",
                 "group_b0", "group_b2c2", "rec_v_b2", "delrec_all", "delrec_b2", "stim_b0c0", "stim_b2", "clamp_v_b1", "delstim_all",
                 "delstim_b2", "delclamp_all", "delclamp_b1", "train_rad_branches", "deltrain_all", "deltrain_b0", "init_states",
@@ -185,10 +221,11 @@ OPS_FOR = {
                                 "clamp_Kn_b2c0", "train_gNa_all", "train_gK_b1"],
     "cell_hh": _CELL_COMMON + ["ins_HH_b1", "del_HH_b1", "del_HH_all", "rec_HHm_b0c1"],
     "net2": [k for k in OPS if k.startswith("n_")],
+    "net_het": _HET,
 }
 UNDOES = {
     "del_Km_all": "ins_Km_all", "del_CaL_b2": "ins_CaL_b2", "del_CaT_b2c0": "ins_CaT_b2c0", "del_HH_b1": "ins_HH_b1",
-    "del_Leak_b0": "ins_Leak_b0", "n_del_Leak_c1": "n_ins_Leak_c1",
+    "del_Leak_b0": "ins_Leak_b0", "n_del_Leak_c1": "n_ins_Leak_c1", "h_del_Leak_c1": "h_ins_Leak_c1",
     "delrec_all": "rec_v_b2", "delrec_b2": "rec_v_b2", "delstim_all": "stim_b0c0", "delstim_b2": "stim_b2",
     "delclamp_all": "clamp_v_b1", "delclamp_b1": "clamp_v_b1", "deltrain_all": "train_rad_branches",
     "n_delrec_all": "n_rec_v_c1", "n_delrec_c1": "n_rec_v_c1", "n_delstim_all": "n_stim_c0", "n_delclamp_all": "n_clamp_v_c1b1",
@@ -295,6 +332,9 @@ def invariants(m, hist, parent_hash=None, hash_=None, item=None):
         par = _grandparent_hash(item["init"], hist[:-1])
         if par is not None:
             errs += _confined_delete(hist[-1], item["init"], hist[:-1], m)
+    # I10 delete_channel through a view leaves every row outside the view untouched
+    if hist and hist[-1] in CONFINED_CH and item is not None:
+        errs += _confined_channel_delete(hist[-1], item["init"], hist[:-1], m)
     # I7 deletions undo their insertions
     if len(hist) >= 2 and UNDOES.get(hist[-1]) == hist[-2] and item is not None:
         gp = _grandparent_hash(item["init"], hist[:-2])
@@ -309,6 +349,51 @@ CONFINED = {
     "delclamp_b1": ("clamp", lambda m: m.branch(1)), "deltrain_b0": ("train", lambda m: m.branch(0)),
     "n_delrec_c1": ("rec", lambda m: m.cell(1)), "n_delclamp_c1": ("clamp", lambda m: m.cell(1)),
 }
+
+
+CONFINED_CH = {
+    "del_Na_b0": lambda m: m.branch(0), "del_K_b1": lambda m: m.branch(1), "del_CaL_b2": lambda m: m.branch(2),
+    "del_CaT_b2c0": lambda m: m.branch(2).comp(0), "del_HH_b1": lambda m: m.branch(1), "del_Leak_b0": lambda m: m.branch(0),
+    "n_del_HH_c0": lambda m: m.cell(0), "n_del_Leak_c1": lambda m: m.cell(1),
+    "h_del_HH_c0b0c0": lambda m: m.cell(0).branch(0).comp(0), "h_del_HH_c0": lambda m: m.cell(0),
+    "h_del_Leak_c0b1": lambda m: m.cell(0).branch(1), "h_del_Na_c1b0": lambda m: m.cell(1).branch(0),
+    "h_del_K_c1": lambda m: m.cell(1), "h_del_Leak_c1": lambda m: m.cell(1),
+}
+
+
+def _confined_channel_delete(op, init, parent_hist, m):
+    """Reference semantics of view.delete_channel: rows outside the view keep every flag, parameter and state they had."""
+    import sys
+
+    mod = sys.modules[__name__]
+    parent = explorer.replay(mod, init, parent_hist)
+    try:
+        rows = set(int(i) for i in CONFINED_CH[op](parent)._nodes_in_view)
+    except Exception:
+        return []
+    outside = [i for i in range(len(parent.nodes)) if i not in rows]
+    if not outside or len(parent.nodes) != len(m.nodes):
+        return []
+    errs = []
+    name = _opkind(op) and (op[2:] if op[:2] in ("n_", "h_") else op).split("_")[1]
+    for col in parent.nodes.columns:
+        before = parent.nodes.loc[outside, col].to_numpy()
+        if before.dtype == object:
+            before = np.asarray([float(x) if x is not None else np.nan for x in before])
+        if not np.issubdtype(before.dtype, np.number) and before.dtype != bool:
+            continue
+        before = before.astype(float)
+        if col not in m.nodes.columns:
+            bad = [outside[j] for j in np.where(~np.isnan(before) & (before != 0))[0]]
+            if bad:
+                errs.append(("I10_confined_channel_delete", "column_removed_while_set_outside_view", f"{col} (deleting {name}) had values on rows {bad} outside the view {sorted(rows)}"))
+            continue
+        after = m.nodes.loc[outside, col].to_numpy()
+        after = np.asarray([float(x) if x is not None else np.nan for x in after]) if after.dtype == object else after.astype(float)
+        if not np.array_equal(before, after, equal_nan=True):
+            bad = [outside[j] for j in np.where(~((before == after) | (np.isnan(before) & np.isnan(after))))[0]]
+            errs.append(("I10_confined_channel_delete", "rows_outside_view_changed", f"{col} (deleting {name}) changed on rows {bad} outside the view {sorted(rows)}"))
+    return errs
 
 
 def _confined_delete(op, init, parent_hist, m):
@@ -369,13 +454,13 @@ def _undo_is_exact(del_op, snap):
     if kind == "deltrain":
         return not snap["trainable_params"]
     if kind == "del":
-        name = del_op[2:].split("_")[1] if del_op.startswith("n_") else del_op.split("_")[1]
+        name = del_op[2:].split("_")[1] if del_op[:2] in ("n_", "h_") else del_op.split("_")[1]
         return name not in snap["channels"]
     return True
 
 
 def _opkind(op):
-    op = op[2:] if op.startswith("n_") else op
+    op = op[2:] if op[:2] in ("n_", "h_") else op
     return op.split("_")[0]
 
 
@@ -399,11 +484,15 @@ def _grandparent_hash(init, hist):
 def cover_of(m, hist):
     out = []
     last = hist[-1]
+    if last in CONFINED_CH:
+        out.append("channel_delete_confinement_checked")
+    if last.startswith("h_"):
+        out.append("heterogeneous_network")
     if last in CONFINED and (len(m.recordings) or m.externals or m.trainable_params):
         out.append("confined_delete_with_items_outside_view")
     if last in UNDOES and len(hist) >= 2 and UNDOES[last] == hist[-2]:
         out.append("delete_undoes_insert")
-    if "del_" in last and last.split("_")[1] in ("Na", "K", "Km", "CaL", "CaT"):
+    if "del_" in last and not last.startswith(("n_", "h_")) and last.split("_")[1] in ("Na", "K", "Km", "CaL", "CaT"):
         shared = {"Na": ["vt"], "K": ["vt", "eK"], "Km": ["eK"], "CaL": ["eCa"], "CaT": ["eCa"]}[last.split("_")[1]]
         own = _owners(m)
         if any(k in own for k in shared):
